@@ -7,7 +7,7 @@ ID = "C14"
 PROP_FILE = "C14"
 RULE = ("all lists of length 0..6 (quick: 0..5) over the alphabet {ES256, EdDSA, unknown algorithm, known algorithm with unknown type} exhaustively, inside a "
         "MakeCredential request and stand-alone; random lists up to 64 entries; algorithm identifiers across the 32-bit signed range; type strings up to the "
-        "32-byte capacity; all lists of length 0..5 (quick: 0..4) over {packed, none, tpm, arbitrary text} as attestationFormatsPreference of MakeCredential "
+        "32-byte capacity; all lists of length 0..5 (quick: 0..4) over {packed, none, tpm, Packed, NONE (case variants are other formats)} as attestationFormatsPreference of MakeCredential "
         "and GetAssertion; GetInfo algorithms on the encode side. The answer must equal the model's and an independent Python filter. "
         "Non-trivial = distinct list")
 ASSUMPTIONS = []
@@ -18,7 +18,7 @@ LEVEL_TEXT = ("Theorems by induction for lists of every length: the parameter vi
 feature_sets = default_feature_sets
 
 ALPHA = [("es", -7, "public-key"), ("ed", -8, "public-key"), ("unk", -257, "public-key"), ("typ", -7, "private-key")]
-FMTS = ["packed", "none", "tpm", "whatever"]
+FMTS = ["packed", "none", "tpm", "Packed", "NONE"]
 
 
 def entry(alg, t):
@@ -56,7 +56,7 @@ def cases(tier, rng, schema, feats):
         n += 1
     fl = 4 if tier == "quick" else 5
     for L in range(fl + 1):
-        for combo in itertools.product(range(4), repeat=L):
+        for combo in itertools.product(range(len(FMTS)), repeat=L):
             prefs = [FMTS[c] for c in combo]
             out.append(f"C14.fmt.{n}\tdec2\t{mc([entry(-7, 'public-key')], prefs).hex()}")
             n += 1
